@@ -578,12 +578,46 @@ pub fn main(args: Args) {
         let v: Json = serde_json::from_str(&std::fs::read_to_string(rp).expect("replay")).unwrap();
         let i = v["case"]["case_index"].as_u64().expect("case_index");
         let s = v["seed"].as_u64().unwrap_or(seed);
+        if v["case"]["boundary"].as_bool() == Some(true) {
+            let o = fresh_thread(STACK_64M, move || boundary_case(s, i, cc_ok).case);
+            report(&run, i, o);
+            run.finish(&[]);
+        }
         let o = fresh_thread(STACK_64M, move || run_case(s, i, n_outs, sets, cc_ok, comptime_sets));
         report(&run, i, o);
         run.finish(&[]);
     }
 
     REDUCTIONS_LEFT.store(args.budget("max_reductions", 300, 1500) as i64, std::sync::atomic::Ordering::Relaxed);
+    // ---------------- boundary arm
+    let nb = args.budget("boundary_designs", 26, 26 * 8);
+    let run2 = run.clone();
+    par_cases(
+        nb,
+        args.jobs,
+        STACK_64M,
+        move |i| boundary_case(seed, i, cc_ok && i % 6 == 0),
+        move |i, r| match r {
+            Err(p) => {
+                run2.count("cases_panicked_outside_engines_not_judged", 1);
+                run2.note(format!("boundary case {i}: panic at {}: {}", p.location, p.message.chars().take(200).collect::<String>()));
+            }
+            Ok(b) => {
+                run2.count("boundary_designs_simulated", (b.case.status == "ok") as i64);
+                run2.count("shift_count_equals_width_cases", b.shift_eq_width as i64);
+                run2.count(&format!("shift_count_equals_width_w{}", b.width), b.shift_eq_width as i64);
+                run2.count("shift_count_at_or_above_width_cases", b.shift_ge_width as i64);
+                run2.count("dynamic_select_index_equals_msb_cases", b.select_at_msb as i64);
+                run2.count("boundary_output_value_comparisons", b.case.comparisons as i64);
+                run2.count("boundary_comptime_values_compared", b.case.comptime_compared as i64);
+                if b.case.status == "ok" {
+                    run2.seen("boundary_widths", &format!("{:03}", b.width));
+                }
+                report(&run2, 1_000_000 + i, Ok(b.case));
+            }
+        },
+    );
+
     let n = args.budget("designs", 100, 17_000);
     let run2 = run.clone();
     par_cases(n, args.jobs, STACK_64M, move |i| run_case(seed, i, n_outs, sets, cc_ok && i % cc_every == 0, comptime_sets), move |i, r| report(&run2, i, r));
@@ -596,6 +630,14 @@ pub fn main(args: Args) {
         ("outputs_wider_than_128", 25),
         ("comptime_values_compared", 200),
         ("constructs", 40),
+        ("boundary_designs_simulated", 20),
+        ("boundary_widths", 13),
+        ("shift_count_equals_width_cases", 2000),
+        ("shift_count_equals_width_w64", 150),
+        ("shift_count_equals_width_w128", 150),
+        ("shift_count_at_or_above_width_cases", 8000),
+        ("dynamic_select_index_equals_msb_cases", 300),
+        ("boundary_comptime_values_compared", 5000),
     ]);
 }
 
@@ -656,4 +698,314 @@ fn report(run: &Run, i: u64, r: Result<CaseOut, vcommon::pool::PanicInfo>) {
             }
         }
     }
+}
+
+// ------------------------------------------------------------------------------------------------
+// boundary arm: expression widths exactly at word/representation boundaries, run-time shift
+// counts and select indices at {0, 1, w-1, w, w+1, 2w, max}, MSB-set / all-ones / alternating
+// operands, all four shifts, compare/arith at the same widths, signed and unsigned.
+
+pub const BOUNDARY_WIDTHS: [usize; 13] = [8, 16, 31, 32, 33, 63, 64, 65, 127, 128, 129, 255, 256];
+
+/// (name, 1-bit result, veryl text over ports a b n m)
+const BOUNDARY_OUTS: [(&str, bool, &str); 15] = [
+    ("shl", false, "a << n"),
+    ("shr", false, "a >> n"),
+    ("ashl", false, "a <<< n"),
+    ("ashr", false, "a >>> n"),
+    ("shlm", false, "a << m"),
+    ("shrm", false, "a >> m"),
+    ("ashrm", false, "a >>> m"),
+    ("add", false, "a + b"),
+    ("sub", false, "a - b"),
+    ("mul", false, "a * b"),
+    ("neg", false, "-a"),
+    ("lt", true, "a <: b"),
+    ("ge", true, "a >= b"),
+    ("eq", true, "a == b"),
+    ("sel", true, "a[n]"),
+];
+
+fn boundary_expected(name: &str, a: &Bv, b: &Bv, n: &Bv, m: &Bv, w: usize, signed: bool) -> Bv {
+    use bv4::{BinOp, UnOp, eval_binary, eval_unary};
+    let fit = |v: Bv| v.resize(w).as_signed(signed);
+    let bit = |v: Bv| v.resize(1).as_signed(false);
+    match name {
+        "shl" => fit(eval_binary(BinOp::Shl, a, n, Some(w))),
+        "shr" => fit(eval_binary(BinOp::Shr, a, n, Some(w))),
+        "ashl" => fit(eval_binary(BinOp::Ashl, a, n, Some(w))),
+        "ashr" => fit(eval_binary(BinOp::Ashr, a, n, Some(w))),
+        "shlm" => fit(eval_binary(BinOp::Shl, a, m, Some(w))),
+        "shrm" => fit(eval_binary(BinOp::Shr, a, m, Some(w))),
+        "ashrm" => fit(eval_binary(BinOp::Ashr, a, m, Some(w))),
+        "add" => fit(eval_binary(BinOp::Add, a, b, Some(w))),
+        "sub" => fit(eval_binary(BinOp::Sub, a, b, Some(w))),
+        "mul" => fit(eval_binary(BinOp::Mul, a, b, Some(w))),
+        "neg" => fit(eval_unary(UnOp::Neg, a, Some(w))),
+        "lt" => bit(eval_binary(BinOp::Lt, a, b, None)),
+        "ge" => bit(eval_binary(BinOp::Ge, a, b, None)),
+        "eq" => bit(eval_binary(BinOp::Eq, a, b, None)),
+        // dynamic bit select: out-of-range index reads x (IEEE 11.5.1)
+        "sel" => {
+            let idx = n.to_u64().unwrap_or(u64::MAX);
+            if (idx as usize) < a.width() { Bv::new(vec![a.bit(idx as usize)], false) } else { Bv::xs(1, false) }
+        }
+        _ => unreachable!(),
+    }
+}
+
+fn count_class(n: u64, w: usize) -> &'static str {
+    let w = w as u64;
+    if n == 0 {
+        "0"
+    } else if n == 1 {
+        "1"
+    } else if n == w - 1 {
+        "w-1"
+    } else if n == w {
+        "w"
+    } else if n == w + 1 {
+        "w+1"
+    } else if n == 2 * w {
+        "2w"
+    } else if n > 2 * w {
+        "max"
+    } else {
+        "mid"
+    }
+}
+
+#[derive(Default)]
+pub struct BoundaryOut {
+    pub case: CaseOut,
+    pub shift_eq_width: u64,
+    pub shift_ge_width: u64,
+    pub select_at_msb: u64,
+    pub width: usize,
+}
+
+pub fn boundary_case(seed: u64, i: u64, with_cc: bool) -> BoundaryOut {
+    let w = BOUNDARY_WIDTHS[(i as usize / 2) % BOUNDARY_WIDTHS.len()];
+    let signed = i % 2 == 1;
+    let mut rng = Rng::for_case(seed, "C18boundary", i);
+    let ty = type_text(w, signed);
+    // design
+    let mut text = format!(
+        "module Top (\n    i_clk: input clock,\n    i_rst: input reset,\n    a: input {ty},\n    b: input {ty},\n    n: input logic<10>,\n    m: input logic<70>,\n"
+    );
+    for (name, one, _) in BOUNDARY_OUTS {
+        text.push_str(&format!("    {name}: output {},\n", if one { "logic".to_string() } else { ty.clone() }));
+    }
+    text.push_str(") {\n");
+    for (k, (name, _, e)) in BOUNDARY_OUTS.iter().enumerate() {
+        match k % 3 {
+            0 => text.push_str(&format!("    assign {name} = {e};\n")),
+            1 => text.push_str(&format!("    always_comb {{\n        {name} = {e};\n    }}\n")),
+            _ => text.push_str(&format!("    always_ff {{\n        if_reset {{\n            {name} = 0;\n        }} else {{\n            {name} = {e};\n        }}\n    }}\n")),
+        }
+    }
+    text.push_str("}\n");
+    let port = |n: &str, w: usize, s: bool, o: bool| Port { name: n.into(), width: w, signed: s, output: o };
+    let design = Design {
+        text: text.clone(),
+        top: "Top".into(),
+        clock: "i_clk".into(),
+        reset: "i_rst".into(),
+        inputs: vec![port("a", w, signed, false), port("b", w, signed, false), port("n", 10, false, false), port("m", 70, false, false)],
+        outputs: BOUNDARY_OUTS.iter().map(|(n, one, _)| port(n, if *one { 1 } else { w }, !*one && signed, true)).collect(),
+        features: vec![],
+        has_ff: true,
+    };
+    // value sets: operand patterns x counts
+    let msb = {
+        let mut v = Bv::zeros(w, signed);
+        v.bits[w - 1] = 1;
+        v
+    };
+    let alt = Bv::new((0..w).map(|k| (k & 1) as u8).collect(), signed);
+    let pats: Vec<Bv> = vec![msb.clone(), Bv::ones(w, signed), alt, {
+        let mut v = pick_known(&mut rng, w, signed);
+        v.bits[w - 1] = 1;
+        v
+    }, Bv::from_u64(1, w, signed)];
+    let counts: Vec<u64> = vec![0, 1, w as u64 - 1, w as u64, w as u64 + 1, 2 * w as u64, 1023];
+    let mut envs: Vec<(Bv, Bv, Bv, Bv)> = vec![];
+    for (pi, a) in pats.iter().enumerate() {
+        for &c in &counts {
+            let b = match (pi + c as usize) % 4 {
+                0 => msb.clone(),
+                1 => Bv::ones(w, signed),
+                2 => a.clone(),
+                _ => pick_known(&mut rng, w, signed),
+            };
+            let n = Bv::from_u64(c.min(1023), 10, false);
+            // the wide count port: same count, or (for "max") a value whose low 64 bits are 0
+            let m = if c == 1023 {
+                let mut v = Bv::zeros(70, false);
+                v.bits[64 + rng.usize(6)] = 1;
+                v
+            } else {
+                Bv::from_u64(c, 70, false)
+            };
+            envs.push((a.clone(), b, n, m));
+        }
+    }
+    let mut cycles = vec![];
+    for c in 0..envs.len() + 2 {
+        let e = &envs[c.saturating_sub(2).min(envs.len() - 1)];
+        cycles.push(CycleIn { reset: c < 2, inputs: vec![bv_to_tval(&e.0), bv_to_tval(&e.1), bv_to_tval(&e.2), bv_to_tval(&e.3)] });
+    }
+    let stim = Stimulus { cycles };
+    let mut out = BoundaryOut { width: w, ..Default::default() };
+    out.case.text = text.clone();
+    out.case.n_exprs = BOUNDARY_OUTS.len();
+    let a = match accept(&text) {
+        Ok(a) => a,
+        Err((s, codes)) => {
+            out.case.status = s;
+            out.case.codes = codes;
+            return out;
+        }
+    };
+    out.case.status = "ok".into();
+    out.case.tags = BOUNDARY_OUTS.iter().map(|(n, _, _)| format!("boundary:{n}")).collect();
+    let sg = if signed { "signed" } else { "unsigned" };
+    let expected: Vec<Vec<Bv>> =
+        envs.iter().map(|(a, b, n, m)| BOUNDARY_OUTS.iter().map(|(name, _, _)| boundary_expected(name, a, b, n, m, w, signed)).collect()).collect();
+    // (output, count class) → (engines failing, first witness)
+    let mut fails: std::collections::BTreeMap<(usize, &'static str), (Vec<String>, String)> = Default::default();
+    let mut engines_run = 0usize;
+    for (name, cfg) in engines(with_cc) {
+        let r = std::panic::catch_unwind(std::panic::AssertUnwindSafe(|| sim_run(&a.ir, &design, &cfg, &stim)));
+        let t = match r {
+            Ok(Ok(t)) => t,
+            Ok(Err(e)) => {
+                out.case.engine_errors.push((name, e.lines().next().unwrap_or("").to_string()));
+                continue;
+            }
+            Err(_) => {
+                out.case.bad.push((format!("engine-panic:{}:boundary", engine_family(&name)), format!("engine {name} panicked on the boundary design of width {w}"), json!({"boundary": true, "case_index": i, "design": text})));
+                continue;
+            }
+        };
+        engines_run += 1;
+        out.case.engines_run.push(name.clone());
+        for (c, row) in t.steps.iter().enumerate().skip(2) {
+            let env = &envs[c - 2];
+            let cnt = env.2.to_u64().unwrap_or(0);
+            let cc_ = count_class(cnt, w);
+            for (oi, (oname, _, _)) in BOUNDARY_OUTS.iter().enumerate() {
+                let exp = &expected[c - 2][oi];
+                let is_shift = oi < 7;
+                if is_shift && cc_ == "w" {
+                    out.shift_eq_width += 1;
+                }
+                if is_shift && matches!(cc_, "w" | "w+1" | "2w" | "max") {
+                    out.shift_ge_width += 1;
+                }
+                if *oname == "sel" && cc_ == "w-1" {
+                    out.select_at_msb += 1;
+                }
+                if exp.has_xz() {
+                    if !cfg.use_4state {
+                        out.case.skipped_xz_2state += 1;
+                        continue;
+                    }
+                    out.case.xz_compared_4state += 1;
+                }
+                let got = tval_to_bv(&row[oi], exp.signed);
+                out.case.comparisons += 1;
+                if got.bits != exp.bits {
+                    let cls = if is_shift || *oname == "sel" { cc_ } else { "-" };
+                    let e = fails.entry((oi, cls)).or_insert_with(|| {
+                        (
+                            vec![],
+                            format!(
+                                "{oname} = {} with a={w}'{}b{} b=…{} n={cnt} m={} → {name} gives {} ; IEEE {}",
+                                BOUNDARY_OUTS[oi].2,
+                                if signed { "s" } else { "" },
+                                clip(&env.0.to_bitstr()),
+                                clip(&env.1.to_bitstr()),
+                                clip(&env.3.to_bitstr()),
+                                clip(&got.to_bitstr()),
+                                clip(&exp.to_bitstr())
+                            ),
+                        )
+                    });
+                    if !e.0.contains(&name) {
+                        e.0.push(name.clone());
+                    }
+                }
+            }
+        }
+    }
+    for ((oi, cls), (engs, what)) in fails {
+        let scope = engine_scope(&engs, engines_run);
+        // an out-of-range dynamic bit select (IEEE: x) is one class whatever the width
+        let sig = if BOUNDARY_OUTS[oi].0 == "sel" && matches!(cls, "w" | "w+1" | "2w" | "max") {
+            format!("sim:{scope}:boundary:sel:index-out-of-range")
+        } else {
+            format!("sim:{scope}:boundary:{}:w{w}:{sg}:count={cls}", BOUNDARY_OUTS[oi].0)
+        };
+        out.case.bad.push((
+            sig,
+            format!("width {w} {sg}: {what}"),
+            json!({"boundary": true, "case_index": i, "design": text, "engines": engs, "what": what}),
+        ));
+    }
+    // compile-time leg: every value set as constants in one module
+    let mut ct = String::from("module Top {\n");
+    for (k, (a_, b_, n_, m_)) in envs.iter().enumerate() {
+        ct.push_str(&format!("    const a{k}: {ty} = {};\n    const b{k}: {ty} = {};\n", plain_literal(a_).render(&[]), plain_literal(b_).render(&[])));
+        ct.push_str(&format!("    const n{k}: logic<10> = {};\n    const m{k}: logic<70> = {};\n", plain_literal(n_).render(&[]), plain_literal(m_).render(&[])));
+        for (name, one, e) in BOUNDARY_OUTS {
+            if name == "sel" {
+                continue;
+            }
+            let e = e.replace("a", &format!("a{k}")).replace(" b", &format!(" b{k}")).replace(" n", &format!(" n{k}")).replace(" m", &format!(" m{k}"));
+            ct.push_str(&format!("    const {name}{k}: {} = {e};\n", if one { "logic".to_string() } else { ty.clone() }));
+        }
+    }
+    ct.push_str("}\n");
+    let ct2 = ct.clone();
+    let vals = fresh_thread(STACK_64M, move || {
+        let md = default_metadata();
+        let a = analyze_one(&ct2, &md).ok()?;
+        let codes: Vec<String> = a.error_codes().into_iter().filter(|c| !c.contains("unsigned_arith_shift")).collect();
+        if !codes.is_empty() {
+            return None;
+        }
+        Some(module_vars(&a, "Top"))
+    });
+    if let Ok(Some(vars)) = vals {
+        out.case.comptime_status = "ok".into();
+        let mut seen = std::collections::HashSet::new();
+        for (k, env) in envs.iter().enumerate() {
+            let cnt = env.2.to_u64().unwrap_or(0);
+            for (oi, (name, _, _)) in BOUNDARY_OUTS.iter().enumerate() {
+                let Some(got) = vars.get(&format!("{name}{k}")).and_then(|(_, v)| v.first()).and_then(value_to_bv) else { continue };
+                out.case.comptime_compared += 1;
+                let exp = &expected[k][oi];
+                if got.bits != exp.bits {
+                    let cls = if oi < 7 { count_class(cnt, w) } else { "-" };
+                    if seen.insert((oi, cls)) {
+                        out.case.bad.push((
+                            format!("comptime:boundary:{name}:w{w}:{sg}:count={cls}"),
+                            format!(
+                                "width {w} {sg}: compile-time {name} = {} with a={} n={cnt} → analyzer {} ; IEEE {}",
+                                BOUNDARY_OUTS[oi].2,
+                                clip(&env.0.to_bitstr()),
+                                clip(&got.to_bitstr()),
+                                clip(&exp.to_bitstr())
+                            ),
+                            json!({"boundary": true, "case_index": i, "comptime_text": ct.chars().take(4000).collect::<String>()}),
+                        ));
+                    }
+                }
+            }
+        }
+    } else {
+        out.case.comptime_status = "rejected_or_panic".into();
+    }
+    out
 }
